@@ -7,6 +7,7 @@ from fdlstatic import cfg as cfg_lib
 from fdlstatic.ctx import Ctx, kwarg
 from fdlstatic.model import AnalysisError, unparse, walk_function, walk_stmts
 from fdlstatic.report import RuleSet
+from fdlstatic.rules import ownrule
 
 AC = 'fiddle._src.experimental.auto_config'
 TR = f'{AC}._AutoConfigNodeTransformer'
@@ -46,6 +47,162 @@ ASSUMPTIONS = ['ast.NodeTransformer dispatches to visit_<ClassName>',
 def _always_raises(ctx, f) -> bool:
   g = ctx.cfg(f)
   return g.exit not in g.reach([g.entry], labels=cfg_lib.NO_EXC)
+
+
+def closure_insert_order(ctx: Ctx, rs: RuleSet, mk):
+  """The rewritten code object lists the handler names among its free
+
+  variables; their cells are spliced into a copy of fn.__closure__ with
+  list.insert at the index each name has in co_freevars.  That is only right
+  when the insertions happen at ascending indices (an earlier insertion shifts
+  everything after it).
+  """
+  rule = 'ORD.closure-cells'
+  rs.declare(rule, 'handler cells are inserted into the closure at ascending '
+             'co_freevars indices', 1)
+  mod = mk.module
+  inserts = []
+  parents = {}
+  for n in ast.walk(mk.node):
+    for c in ast.iter_child_nodes(n):
+      parents[c] = n
+  own_nodes = set(walk_function(mk.node))
+  for n in own_nodes:
+    if isinstance(n, ast.Call) and isinstance(
+        n.func, ast.Attribute) and n.func.attr == 'insert' and len(
+            n.args) == 2 and isinstance(n.func.value, ast.Name):
+      inserts.append(n)
+  # the list that becomes the closure of the new function object
+  clos = None
+  for n in own_nodes:
+    if isinstance(n, ast.Call) and unparse(n.func).endswith('FunctionType'):
+      clos = kwarg(n, 'closure')
+  if clos is None or not inserts:
+    raise AnalysisError('make_auto_config: closure construction not found')
+  inserts = [c for c in inserts if c.func.value.id == unparse(clos)]
+  if not inserts:
+    raise AnalysisError('make_auto_config: no insertion into the closure list')
+
+  def enclosing_for(n):
+    while n in parents:
+      n = parents[n]
+      if isinstance(n, ast.For):
+        return n
+      if isinstance(n, (ast.FunctionDef, ast.Lambda)):
+        return None
+    return None
+
+  def const_str(e):
+    if isinstance(e, ast.Constant) and isinstance(e.value, str):
+      return e.value
+    if isinstance(e, ast.Name):
+      v = mod.assigns.get(e.id)
+      if isinstance(v, ast.Constant) and isinstance(v.value, str):
+        return v.value
+    return None
+
+  for c in inserts:
+    loop = enclosing_for(c)
+    key = f'{mk.qualname}:`{unparse(c)[:50]}`'
+    ok, why = False, 'the insertion is not inside a loop over the handlers'
+    if loop is not None and isinstance(loop.iter, ast.Call) and unparse(
+        loop.iter.func) == 'sorted' and len(loop.iter.args) == 1 and (
+            not loop.iter.keywords) and isinstance(loop.target, ast.Tuple):
+      tnames = [unparse(t) for t in loop.target.elts]
+      lst = unparse(loop.iter.args[0])
+      # every element appended to the sorted list is (index, cell)
+      apps = [a for a in own_nodes if isinstance(a, ast.Call) and isinstance(
+          a.func, ast.Attribute) and a.func.attr == 'append' and unparse(
+              a.func.value) == lst]
+      idx_first = bool(apps) and all(
+          len(a.args) == 1 and isinstance(a.args[0], ast.Tuple) and len(
+              a.args[0].elts) == 2 and _is_freevar_index(
+                  mk, a.args[0].elts[0]) for a in apps)
+      ok = (len(tnames) == 2 and [unparse(a) for a in c.args] == tnames and
+            idx_first)
+      why = (f'iterates sorted({lst}) of (co_freevars index, cell) pairs: '
+             'ascending indices' if ok else
+             f'sorted({lst}) is not a list of (co_freevars index, cell) pairs '
+             'inserted as (index, cell)')
+    elif loop is not None and isinstance(loop.iter, ast.Name) and isinstance(
+        loop.target, ast.Tuple) and [unparse(a) for a in c.args] == [
+            unparse(t) for t in loop.target.elts]:
+      # an unsorted list: the cells go in in the order they were appended;
+      # ascending iff the handler names were appended in name order
+      # (co_freevars is sorted by name)
+      lst = loop.iter.id
+      apps = sorted((a for a in own_nodes if isinstance(a, ast.Call) and
+                     isinstance(a.func, ast.Attribute) and
+                     a.func.attr == 'append' and unparse(a.func.value) == lst),
+                    key=lambda a: (a.lineno, a.col_offset))
+      ids = []
+      for a in apps:
+        el = a.args[0] if a.args else None
+        if not (isinstance(el, ast.Tuple) and len(el.elts) == 2 and
+                _is_freevar_index(mk, el.elts[0])):
+          ids = None
+          break
+        idx = el.elts[0]
+        if isinstance(idx, ast.Name):
+          idx = [s.value for s in walk_function(mk.node)
+                 if isinstance(s, ast.Assign) and any(
+                     isinstance(t, ast.Name) and t.id == idx.id
+                     for t in s.targets) and s.lineno <= a.lineno][-1]
+        arg = idx.args[0]
+        lp = enclosing_for(a)
+        if const_str(arg) is not None:
+          ids.append(const_str(arg))
+        elif lp is not None and isinstance(lp.iter, (ast.Tuple, ast.List)) and (
+            isinstance(lp.target, ast.Tuple) and isinstance(arg, ast.Name) and
+            unparse(lp.target.elts[0]) == arg.id):
+          ids += [const_str(e.elts[0]) if isinstance(e, ast.Tuple) and e.elts
+                  else None for e in lp.iter.elts]
+        else:
+          ids = None
+          break
+      if ids and None not in ids:
+        ok = ids == sorted(ids)
+        why = (f'cells are appended for {ids} in ascending name order and '
+               'inserted in that order (co_freevars is sorted by name)' if ok
+               else f'cells are inserted in the order {ids} without sorting '
+               'by index: a later insertion at a smaller index shifts the '
+               'earlier cell')
+      else:
+        why = 'insertion order of the handler cells cannot be established'
+    elif loop is not None and isinstance(loop.iter, (ast.Tuple, ast.List)):
+      # a literal sequence of (handler id, handler): ascending iff the ids
+      # are in ascending name order (co_freevars is sorted by name)
+      ids = [const_str(e.elts[0]) if isinstance(e, ast.Tuple) and e.elts
+             else None for e in loop.iter.elts]
+      if None not in ids and _is_freevar_index(mk, c.args[0]) and len(
+          inserts) == 1:
+        ok = ids == sorted(ids)
+        why = (f'handler names {ids} are visited in ascending name order '
+               '(co_freevars is sorted by name)' if ok else
+               f'handler names are visited in the order {ids}, which is not '
+               'the order of their co_freevars indices: an insertion at a '
+               'larger index followed by one at a smaller index shifts the '
+               'first cell, so a free variable of the user function is bound '
+               'to a handler (and vice versa)')
+      else:
+        why = 'insertion order of the handler cells cannot be established'
+    rs.check(ok, rule, key, why, ctx.loc(mk, c))
+
+
+def _is_freevar_index(mk, e) -> bool:
+  """`e` is code.co_freevars.index(ID) or a local assigned exactly that."""
+  def direct(x):
+    return (isinstance(x, ast.Call) and isinstance(x.func, ast.Attribute) and
+            x.func.attr == 'index' and unparse(x.func.value).endswith(
+                '.co_freevars') and len(x.args) == 1)
+  if direct(e):
+    return True
+  if isinstance(e, ast.Name):
+    defs = [s.value for s in walk_function(mk.node)
+            if isinstance(s, ast.Assign) and any(
+                isinstance(t, ast.Name) and t.id == e.id for t in s.targets)]
+    return bool(defs) and all(direct(d) for d in defs)
+  return False
 
 
 def run(ctx: Ctx, rs: RuleSet, tier: str):
@@ -262,6 +419,26 @@ def run(ctx: Ctx, rs: RuleSet, tier: str):
   rs.check(ok, rule, f'{ch.qualname}:arg_factory.partial',
            'arg_factory.partial maps every argument to an ArgFactory',
            ctx.loc(ch, ch.node))
+
+  # ---- OWN: the runtime handlers leave what the user function passes alone
+  handlers = [f'{AC}._maybe_as_arg_factory',
+              f'{AC}._make_partial',
+              f'{AC}.auto_config.auto_config_call_handler',
+              f'{AC}.auto_config.auto_config_attr_load_handler',
+              f'{AC}.auto_config.auto_config_attr_save_handler']
+  ownrule.run_entry_points(
+      ctx, rs, 'OWN.handler-arguments', handlers,
+      inputs={handlers[-1]: ['attr', 'value']},
+      statement='the handlers substituted for calls and attribute accesses '
+      'never modify the objects the user function hands them (the plain '
+      'function would not): a Partial bound to a local and then extended by a '
+      'chained functools.partial stays as it was')
+  rs.exception('OWN.handler-arguments', f'{handlers[-1]}:obj',
+               'the attribute-store handler exists to perform `obj.attr = '
+               'value` on obj, as the plain function does')
+
+  # ---- ORD: closure cells are spliced at ascending co_freevars indices
+  closure_insert_order(ctx, rs, mk)
 
 
 MANIFEST = dict(
